@@ -178,24 +178,56 @@ def classify(case, impl, model, oracle):
     return "s:" + ("dedup" if impl.startswith("ok") and impl.count(",") < f[3].count(",") else impl.split()[0])
 
 
+def finding_matches(entry, case, impl, model, oracle):
+    return False
+
+
 CHECK = {
     "property": "C19",
     "props": "Props/C19.v",
-    "theorems": [],
+    "theorems": ["c19_spec_refl", "c19_spec_sym", "c19_spec_trans", "c19_dispatch", "c19_name_eq",
+                 "c19_covered_partial", "c19_char_partial", "c19_laws_partial", "c19_set", "c19_set_partial",
+                 "c19_sym_refuted_prefix"],
     "allowed_axioms": [],
     "correspondence": {"impl_bin": "impl_c19", "extract": "Extract/ExC19.v", "driver": "run_c19.ml"},
     "gen": gen,
     "nontrivial": nontrivial,
     "classify": classify,
     "exhaustive": {"quick": False, "thorough": False},
-    "rule": "",
-    "trusted_base": [],
-    "assumptions": [],
+    "rule": ("ops e (Rdata::equals a b), l (reflexivity/symmetry/transitivity evaluated on the implementation for a triple), "
+             "s (RdataSetOwned::from_iter + iteration order); all ordered pairs over hand-built families for NS, PTR, MX, SRV, CH A, "
+             "MINFO, SOA, A, TSIG (names with case variants, trailing junk 09/00/C000, missing root label, differing fixed fields, "
+             "19/20/21-octet SOA tails); seeded groups: a pool of 2-4 names (letters, '@[`{' neighbours of the letter ranges, 0x20-flipped "
+             "non-letters, 63-octet labels), RDATA built from the pool for 27 (class,type) combinations incl. other-class and unknown "
+             "types, variants by re-casing, trailing junk, truncation, single-octet changes; pairs in both orders, triples, and "
+             "sequences of 1-8 members for the sets; the oracle is the independent characterisation spec_equals / nodup_by; "
+             "non-trivial = equal-but-not-identical or unequal pairs, triples with an equal pair, sets that dropped a member; "
+             "distinct = distinct case line"),
+    "trusted_base": [
+        "Coq 8.16.1 kernel (vm_compute only in the Example and the refutation witness)",
+        "axioms: none (every theorem: Closed under the global context)",
+        "extraction: ExtrOcamlBasic only; OCaml 4.13.1 ocamlopt",
+        "correspondence: checks/c19.py generators, harness/src/bin/impl_c19.rs (catch_unwind), ocaml/run_c19.ml, line diff in tools/qv.py",
+        "tools/gen/rdata.py re-extracts the equals dispatcher into Gen/RdataTables.v",
+        "the hand-written bodies of names_equal/test_n_name_fields/equals_as_* and of RdataSetOwned in Model/RdataM.v, Model/RdataSetM.v "
+        "(differentially tested); for SOA, MINFO, MX, CH A, IN SRV the link model = characterisation is tested, not proved",
+        "the characterisation as transcribed in Spec/RdataEqS.v",
+        "not verified: the unsafe slice casts of RdataSet, Vec growth, native-endian u16 (the model is parametric in the byte order)",
+    ],
+    "assumptions": ["octets are < 256 (wf_bytes); every RDATA is at most 65535 octets (Rdata's invariant)",
+                    "the model follows the code WITH the fix: commit to helpers.rs::names_equal"],
 }
 
 MANIFEST = {
-    "level_text": "",
-    "level_note": "",
+    "level_text": ("Coq theorems (no axioms): the characterisation of RDATA equality (octet-wise, names of the pre-RFC 3597 name-bearing "
+                   "types label-wise case-insensitive when both RDATA are valid) is an equivalence for every class and type; the equals "
+                   "dispatcher re-extracted from the source sends exactly those types to name-aware handlers; the model of the repaired "
+                   "Rdata::equals equals the characterisation (hence is total, reflexive, symmetric, transitive) for every (class,type) "
+                   "except SOA, MINFO, MX, CH A, IN SRV; RdataSetOwned::from_iter is nodup_by of equals in insertion order for either byte "
+                   "order. The pre-fix code is refuted (asymmetric). For the five remaining handlers the same statement is checked by the "
+                   "differential run (~31k quick cases incl. the three laws evaluated on the implementation) against the proved-equivalence oracle."),
+    "level_note": ("Partial: model = characterisation is not proved for equals_as_{soa,minfo,mx,in_srv,ch_a}. "
+                   "Trusted: Coq kernel, extraction, hand-written model bodies (differentially tested), table extractor."),
     "technique": "machine-checked proof in Coq (equality = characterisation, hence an equivalence; set = nodup) + model/implementation correspondence check",
     "design_ref": "DESIGN.md §4 C19",
 }
